@@ -48,15 +48,13 @@ Section Cache.
   Lemma set_node_nth_same : forall h id n x,
       nth_error h id = Some x -> nth_error (set_node h id n) id = Some n.
   Proof.
-    induction h; destruct id; simpl; intros; try discriminate; auto.
-    eapply IHh; eauto.
+    induction h; destruct id; simpl; intros; try discriminate; eauto.
   Qed.
 
   Lemma set_node_nth_other : forall h id n j,
       j <> id -> nth_error (set_node h id n) j = nth_error h j.
   Proof.
     induction h; destruct id; destruct j; simpl; intros; auto; try congruence.
-    apply IHh. congruence.
   Qed.
 
   Lemma set_node_shape : forall h id n x,
@@ -112,7 +110,7 @@ Section Cache.
       (forall x, In x l -> f x = g x) -> mapM f l = mapM g l.
   Proof.
     induction l; simpl; intros; auto.
-    rewrite H by now left. rewrite IHl; auto. intros; apply H; now right.
+    rewrite H by now left. rewrite IHl; auto.
   Qed.
 
   Lemma eval_args_ext_all : forall (r1 r2 : nat -> res value) deep args,
@@ -140,9 +138,8 @@ Section Cache.
     destruct n as [a|a k|o], n' as [a'|a' k'|o']; simpl in N1; try discriminate.
     - now inversion N1.
     - now inversion N1.
-    - inversion N1. subst.
+    - inversion N1 as [[Hc Ha Hv]]. rewrite Hc, Ha.
       rewrite (eval_args_ext_all (peval f vs h) (peval f vs h')); auto.
-      now rewrite H2.
   Qed.
 
   Lemma eval_shape : forall vs h h' id, shape h = shape h' -> eval vs h id = eval vs h' id.
@@ -246,9 +243,8 @@ Section Cache.
         destruct (build_args (pbuild f vs) h args) as [h2 rr] eqn:B2.
         destruct (IH h h2 rr W Hr' V B2) as [S2 [F2 [R2 V2]]].
         rewrite <- R2.
-        destruct rr; inversion B; subst; repeat split; auto.
-        * intros vals E i Hi. eapply V2; eauto.
-        * intros vals E; discriminate.
+        destruct rr; inversion B; subst; repeat split; auto;
+          try (intros vals E; discriminate); try (intros vals E i Hi; eapply V2; eauto).
       + (* a Parametrized object: built now *)
         destruct (Hr id (or_introl eq_refl)) as [Hb Hf].
         destruct (pbuild f vs h id) as [h1 ra] eqn:B1.
@@ -269,19 +265,16 @@ Section Cache.
           assert (S12 : shape h2 = shape h) by congruence.
           assert (F12 : forall i, (bound <= i)%nat -> nth_error h2 i = nth_error h i).
           { intros i Hi. rewrite F2 by lia. apply F1. lia. }
-          destruct rr; inversion B; subst; repeat split; auto.
-          -- intros vals E i Hi. eapply V2; eauto.
-          -- intros vals E; discriminate.
-        * inversion B; subst. repeat split; auto.
-          -- intros i Hi. apply F1. lia.
-          -- intros vals E; discriminate.
+          destruct rr; inversion B; subst; repeat split; auto;
+            try (intros vals E; discriminate); try (intros vals E i Hi; eapply V2; eauto).
+        * inversion B; subst. repeat split; auto;
+            try (intros vals E; discriminate); try (intros i Hi; apply F1; lia).
       + (* a literal list: handed over as is *)
         destruct (build_args (pbuild f vs) h args) as [h2 rr] eqn:B2.
         destruct (IH h h2 rr W Hr' V B2) as [S2 [F2 [R2 V2]]].
         rewrite <- R2.
-        destruct rr; inversion B; subst; repeat split; auto.
-        * intros vals E i Hi. eapply V2; eauto.
-        * intros vals E; discriminate.
+        destruct rr; inversion B; subst; repeat split; auto;
+          try (intros vals E; discriminate); try (intros vals E i Hi; eapply V2; eauto).
   Qed.
 
   Lemma pbuild_ok : forall f, build_ok f.
@@ -340,12 +333,12 @@ Section Cache.
                    --- rewrite set_inst_shape. reflexivity.
                    --- apply set_inst_other. exact Ne.
                    --- eapply V2; eauto. lia.
-          -- inversion B; subst. repeat split; auto; try congruence.
-             ++ intros i Hi. rewrite F2 by lia. unfold h1. apply set_state_other. lia.
-             ++ intros v Ev; discriminate.
-        * inversion B; subst. repeat split; auto; try congruence.
-          -- intros i Hi. rewrite F2 by lia. unfold h1. apply set_state_other. lia.
-          -- intros v Ev; discriminate.
+          -- inversion B; subst. repeat split; auto; try congruence;
+               try (intros v Ev; discriminate);
+               try (intros i Hi; rewrite F2 by lia; unfold h1; apply set_state_other; lia).
+        * inversion B; subst. repeat split; auto; try congruence;
+               try (intros v Ev; discriminate);
+               try (intros i Hi; rewrite F2 by lia; unfold h1; apply set_state_other; lia).
     - inversion B; subst. repeat split; auto.
       + unfold eval. simpl. now rewrite E.
   Qed.
@@ -444,7 +437,8 @@ Section Cache.
     intros vs h id v i o' E'.
     destruct (Nat.eq_dec i id) as [->|Ne].
     - unfold set_inst in E'.
-      destruct (nth_error h id) as [[| |o]|] eqn:E; try (exists o'; auto; fail).
+      destruct (nth_error h id) as [[| |o]|] eqn:E; try discriminate;
+        try (rewrite E in E'; discriminate).
       erewrite set_node_nth_same in E' by eauto.
       inversion E'; subst. exists o; simpl; auto.
     - rewrite set_inst_other in E' by auto. exists o'; auto.
@@ -492,7 +486,7 @@ Section Cache.
     destruct S as [S|S].
     - destruct SO as [SO|[SO1 SO2]]; [left; congruence|right].
       rewrite S, P. auto.
-    - right. rewrite P. apply counts_state_ok. now rewrite P in *.
+    - right. apply (counts_state_ok vs o'). rewrite P. exact S.
   Qed.
 
   (** *** T2. Whatever a build does (succeed or raise), the recorded counts
@@ -522,49 +516,45 @@ Section Cache.
 
 End Cache.
 
-(** *** R. The invariant is really needed: after a build that raised, a later
-    build under the SAME counts returns the instance of an older assignment.
-    (x := 2; build (x+1) = 3; x := "unassigned" via _clear; build raises;
-    then the variable is given its value back without a new count ... the
-    shortest faithful witness is: build succeeds, the variable is cleared,
-    a build raises, and the counts recorded by the failed build make a third
-    build return the stale 3 although the object's meaning is an error.) *)
+(** *** R. The invariant is really needed (paramobj.py records [_vars_state]
+    before the arguments are built and the class is called).  Witness:
+    w = ConstantWaveform(x, 1.0);  x := 5, w.build() is the 5 ns waveform;
+    x := 0, w.build() raises (a waveform needs a positive duration) but the
+    new counts are already recorded;  w.build() again, same assignment:
+    returns the 5 ns waveform although the meaning of w under x = 0 is that
+    exception.  [Bounded] still holds, [Valid] does not. *)
 Definition w_ofun (_ : Z) (x : float) := x.
 Definition w_opow (x _ : float) := x.
 Definition w_heap0 : heap :=
-  [HVar 7; HItem 7 (KI 0); HObj (new_obj [HVar 7; HItem 7 (KI 0)] OP_ADD [ARef 1%nat; ALit (VN (NI 1))])].
+  [HVar 7; HItem 7 (KI 0);
+   HObj (new_obj [HVar 7; HItem 7 (KI 0)] CLS_CONST [ARef 1%nat; ALit (VN (NF 1%float))])].
 Definition w_vs0 : vstore := [mkVar 7 true 1 0 None].
-
-Definition w_run : res value * res value * res value * res value :=
-  let '(vs1, _) := v_assign w_vs0 7 [NI 2] in
-  let '(h1, r1) := pbuild w_ofun w_opow 3 vs1 w_heap0 2%nat in
-  let vs2 := v_clear vs1 7 in
-  let '(h2, r2) := pbuild w_ofun w_opow 3 vs2 h1 2%nat in
-  let '(h3, r3) := pbuild w_ofun w_opow 3 vs2 h2 2%nat in
-  (r1, r2, r3, eval w_ofun w_opow vs2 h2 2%nat).
+Definition w_vs1 := fst (v_assign w_vs0 7 [NI 5]).
+Definition w_h1 := fst (pbuild w_ofun w_opow 3 w_vs1 w_heap0 2%nat).
+Definition w_vs2 := fst (v_assign w_vs1 7 [NI 0]).
+Definition w_h2 := fst (pbuild w_ofun w_opow 3 w_vs2 w_h1 2%nat).
 
 Lemma cache_stale_after_failed_build_refuted :
-  exists (vs : vstore) (h h' : heap) (v : value),
-    wf h /\ Bounded vs h /\
-    pbuild w_ofun w_opow (length h) vs h 2%nat = (h', Ok v) /\
-    eval w_ofun w_opow vs h 2%nat = Err EValue.
+  snd (pbuild w_ofun w_opow 3 w_vs1 w_heap0 2%nat) = Ok (VO CLS_CONST [VN (NI 5); VN (NF 1%float)]) /\
+  snd (pbuild w_ofun w_opow 3 w_vs2 w_h1 2%nat) = Err EValue /\
+  wf w_h2 /\ Bounded w_vs2 w_h2 /\
+  snd (pbuild w_ofun w_opow (length w_h2) w_vs2 w_h2 2%nat)
+    = Ok (VO CLS_CONST [VN (NI 5); VN (NF 1%float)]) /\
+  eval w_ofun w_opow w_vs2 w_h2 2%nat = Err EValue.
 Proof.
-  set (vs1 := fst (v_assign w_vs0 7 [NI 2])).
-  set (h1 := fst (pbuild w_ofun w_opow 3 vs1 w_heap0 2%nat)).
-  set (vs2 := v_clear vs1 7).
-  set (h2 := fst (pbuild w_ofun w_opow 3 vs2 h1 2%nat)).
-  exists vs2, h2, h2, (VN (NI 3)).
-  split; [|split; [|split]].
-  - intros id o E j I.
+  split; [vm_compute; reflexivity|].
+  split; [vm_compute; reflexivity|].
+  split.
+  { intros id o E j I.
     destruct id as [|[|[|id]]]; vm_compute in E; try discriminate.
-    + inversion E; subst. simpl in I. destruct I as [I|[I|[]]]; inversion I. lia.
-    + destruct id; discriminate.
-  - intros i o E.
+    - inversion E; subst. simpl in I. destruct I as [I|[I|[]]]; inversion I. lia.
+    - destruct id; discriminate. }
+  split.
+  { intros i o E.
     destruct i as [|[|[|i]]]; vm_compute in E; try discriminate.
-    + inversion E; subst. split; [vm_compute; discriminate|].
+    - inversion E; subst. split; [vm_compute; discriminate|].
       right. split; [reflexivity|].
       intros n c [I|[]]. inversion I; subst. vm_compute. discriminate.
-    + destruct i; discriminate.
-  - vm_compute. reflexivity.
-  - vm_compute. reflexivity.
+    - destruct i; discriminate. }
+  split; vm_compute; reflexivity.
 Qed.
